@@ -2,7 +2,7 @@
    (op, ints, byte strings, impl-output tokens); the answer is a token list.
    Ops < 100 run the model; ops >= 100 are property oracles applied to what the
    implementation returned for the same case (out). *)
-From Verif Require Import Base Consts Packet PacketSpec OpenSpec Errors Update UpdateSpec UpdateOracles Server ServerSpec Conn.
+From Verif Require Import Base Consts Packet PacketSpec OpenSpec Errors Update UpdateSpec UpdateOracles Server ServerSpec Conn Peer Mgr.
 From Coq Require Import ZArith.
 
 Definition nthN (l : list N) (i : nat) : N := nth i l 0.
@@ -217,6 +217,72 @@ Definition conn_scenario (ints : list N) (bs : list bytes) : list N :=
   | _, _ => [998]
   end.
 
+(* ---- peer manager replay ---- *)
+Definition st_of (n : N) : st :=
+  match n with 0 => Disabled | 1 => Idle | 2 => Connect | 3 => Active | 4 => OpenSent | 5 => OpenConfirm | _ => Established end.
+Definition dir_of (n : N) : dir := if n =? 0 then DOut else DIn.
+Definition nd (i : dir) : N := match i with DOut => 0 | DIn => 1 end.
+Definition nstN (x : st) : N := N.of_nat (st_num x).
+Definition tok_mout (o : mout) : list N :=
+  match o with
+  | MDisable i => [10; nd i]
+  | MReply i t => [11; nd i; nstN (t_from t); nstN (t_to t)]
+  | MEnable i => [12; nd i]
+  | MDamp => [13]
+  | MDone => [14]
+  end.
+Definition is_reply (o : mout) : bool := match o with MReply _ _ => true | _ => false end.
+
+(* state: model, expected outputs still to be seen, whether a reply was skipped (legal only when
+   the peer is closing, which must then show up later in the trace) *)
+Fixpoint mgr_replay (fuel : nat) (m : mst) (pend : list mout) (skipped : bool) (evs : list N) (idx : N) : list N :=
+  match fuel with
+  | O => [0; idx; 997]
+  | S f =>
+      match evs with
+      | [] => match filter (fun o => negb (is_reply o)) pend with
+              | [] => if skipped && negb (is_nil pend) then [0; idx; 996] else [1; idx]
+              | o :: _ => 0 :: idx :: 900 :: tok_mout o       (* an expected output never happened *)
+              end
+      | c :: r =>
+          if 10 <=? c then
+            (* a logged output: must be the next expected one *)
+            match pend with
+            | o :: pr =>
+                let t := tok_mout o in
+                if beqb (firstn (length t) evs) t then mgr_replay f m pr skipped (skipn (length t) evs) (idx + 1)
+                else if is_reply o then mgr_replay f m pr true evs idx     (* reply skipped: closing *)
+                else 0 :: idx :: 901 :: t
+            | [] => [0; idx; 902; c]          (* an output the model does not produce *)
+            end
+          else
+            (* a logged input: nothing but skippable replies may be outstanding *)
+            match filter (fun o => negb (is_reply o)) pend with
+            | o :: _ => 0 :: idx :: 903 :: tok_mout o
+            | [] =>
+                let skipped' := skipped || negb (is_nil pend) in
+                let go (i : minp) (rest : list N) :=
+                    match mgr_step m i with
+                    | Some (m', outs) => mgr_replay f m' outs (match i with IClose => false | _ => skipped' end) rest (idx + 1)
+                    | None => [0; idx; 904; c]
+                    end in
+                match c, r with
+                | 1, i :: a :: b :: rest => go (ITrans (dir_of i) (mkT (st_of a) (st_of b))) rest
+                | 2, i :: d :: rest => go (IErr (dir_of i) (negb (d =? 0))) rest
+                | 3, h :: pin :: so :: rest =>
+                    if Bool.eqb (m_hold m) (negb (h =? 0)) && Bool.eqb (get (m_present m) DIn) (negb (pin =? 0))
+                       && st_eqb (get (m_state m) DOut) (st_of so)
+                    then go IConn rest else [0; idx; 905; tok_bool (m_hold m); tok_bool (get (m_present m) DIn); nstN (get (m_state m) DOut)]
+                | 4, rest => go ITimer rest
+                | 5, rest => go IClose rest
+                | 6, rest => go ICollideStopped rest
+                | 7, a :: b :: rest => go (ICollideOther (mkT (st_of a) (st_of b))) rest
+                | _, _ => [0; idx; 906; c]
+                end
+            end
+      end
+  end.
+
 Definition run_model (op : N) (ints : list N) (bs : list bytes) : list N :=
   match op with
   | 1 => tok_bytes (notif_encode (mkNotif (nthN ints 0) (nthN ints 1) (nthB bs 0)))
@@ -338,6 +404,9 @@ Definition run_model (op : N) (ints : list N) (bs : list bytes) : list N :=
   | 43 => damp_run damp_init (times_of ints 1000000000000)
   | 44 => [tok_bool (new_server_ok (mkAddr (akind_of (nthN ints 0)) (nthN ints 1)))]
   | 60 => conn_scenario ints bs
+  | 70 => (* peer manager replay: ints [passive; dominant; events...] *)
+      let (m0, outs0) := mgr_init (negb (nthN ints 0 =? 0)) (negb (nthN ints 1 =? 0)) in
+      mgr_replay (S (length ints)) m0 outs0 false (skipn 2 ints) 0
   | 61 => (* the reader over a chunked stream: ints [eof; chunk sizes...] *)
       let stream := nthB bs 0 in
       let fix cut (sizes : list N) (s : bytes) : list bytes :=
